@@ -108,6 +108,18 @@ Theorem C03_model_is_scene_convolved_with_centred_psf : forall N a p c0 r c,
   = Re (csum (fun y => csum (fun x => Cmult (a y x) (p (((r + (N - y)) mod N + c0) mod N)%nat (((c + (N - x)) mod N + c0) mod N)%nat)) N) N).
 Proof. exact conv_chain_ramps. Qed.
 
+(* rectangular odd stamps, (2 cy + 1) rows x (2 cx + 1) columns: the source evaluates the x ramp with the stamp's column count and
+   the y ramp with its row count, so the stamp is centred on its entry [cy][cx] *)
+Theorem C03_ramp_axes : ramp_x_size_axis = Cols /\ ramp_y_size_axis = Rows.
+Proof. exact (conj eq_refl eq_refl). Qed.
+
+Theorem C03_model_is_scene_convolved_with_centred_psf_rect : forall N a p cy cx r c,
+  (0 < N)%nat -> (forall y x, is_real (a y x)) -> (forall y x, is_real (p y x)) -> (r < N)%nat -> (c < N)%nat ->
+  irfft2 N (fun ky kx => Cmult (dft2 N a ky kx)
+              (Cmult (dft2 N p ky kx) (Cmult (cis (ramp_y_phase (INR (2 * cy + 1)) (INR ky / INR N))) (cis (ramp_x_phase (INR (2 * cx + 1)) (INR kx / INR N)))))) r c
+  = Re (csum (fun y => csum (fun x => Cmult (a y x) (p (((r + (N - y)) mod N + cy) mod N)%nat (((c + (N - x)) mod N + cx) mod N)%nat)) N) N).
+Proof. exact conv_chain_ramps_rect. Qed.
+
 (* a point of light on an integer pixel renders as the stamp centred on that pixel *)
 Theorem C03_point_source_is_centred_stamp : forall N p c0 py px r c,
   (0 < N)%nat -> (forall y x, is_real (p y x)) -> (py < N)%nat -> (px < N)%nat -> (r < N)%nat -> (c < N)%nat ->
@@ -129,3 +141,5 @@ Print Assumptions C03_impulse_convolution_is_shift_2d.
 Print Assumptions C03_model_is_scene_convolved_with_centred_psf.
 Print Assumptions C03_point_source_is_centred_stamp.
 Print Assumptions C03_ramp_negative_frequency.
+Print Assumptions C03_ramp_axes.
+Print Assumptions C03_model_is_scene_convolved_with_centred_psf_rect.
